@@ -24,8 +24,8 @@ RULE = (
     "A2C, PPO, 5 tabular learners, CMA-ES, SMT, active-MT, UTS) x training seed x 2 scripts (each with a termination and a "
     "truncation inside the executed horizon, learning enabled after a warm-up of 2-4 steps) x perturbation pair; "
     "in-process pair = (global random/np.random seeded 101, real clock) vs (seeded 202 and advanced, time.time shifted "
-    "+1e6 s, warm jit caches); cross-interpreter pair = separate /venv/bin/python processes with PYTHONHASHSEED 0 vs "
-    "1 / 12345, global RNG seeds 11/22/33 and clock shifts 0/+1e6/-1e6 s. One evaluation = one comparison of two "
+    "+1000003.217 s, warm jit caches); cross-interpreter pair = separate /venv/bin/python processes with PYTHONHASHSEED 0 vs "
+    "7 / 12345 (/ 10 in the thorough tier), global RNG seeds 11/22/33/44 and clock shifts 0/+1000003.217/-1000003.217/+1045296.789 s. One evaluation = one comparison of two "
     "digests (bytes of every handed-in and returned module/optimizer leaf, buffer arrays up to current_len, priorities, "
     "returned counters/tables, the MemoryLogger call sequence with (episode, step) and without wall-clock, the "
     "environment's action/answer trace). Non-trivial = both runs completed AND at least one parameter/table changed "
@@ -46,14 +46,18 @@ K_CLOCK = "depends-on-wall-clock"
 K_HASH = "depends-on-hash-seed"
 K_REPEAT = "not-repeatable-under-identical-controlled-conditions"
 K_UNATTR = "differs-between-runs-unattributed"
-K_INCOMPLETE = "run-does-not-complete"  # not a violation: counted as an outcome
 
 P_A = dict(glob=101, shift=0.0)
-P_B = dict(glob=202, shift=1.0e6)
-CROSS = [  # (PYTHONHASHSEED, perturbation)
+SHIFT = 1_000_003.217  # ~1e6 s, deliberately not a round number (a round shift vanishes under `int(t * 1000) % 100000`)
+P_B = dict(glob=202, shift=SHIFT)
+# (PYTHONHASHSEED, perturbation). Hash seeds: DESIGN's {0, 1, 12345} order the three-element set {"q loss", "q mean",
+# "policy loss"} identically, so 1 was replaced by 7 and 10, which (like 12345 except for that one set) order every set of
+# c09_drivers.PROBE_SETS differently from hash seed 0; the interpreters report the orders and the evidence counts them.
+CROSS = [
     ("0", dict(glob=11, shift=0.0)),
-    ("12345", dict(glob=22, shift=1.0e6)),
-    ("1", dict(glob=33, shift=-1.0e6)),
+    ("7", dict(glob=22, shift=SHIFT)),
+    ("12345", dict(glob=33, shift=-SHIFT)),
+    ("10", dict(glob=44, shift=1_045_296.789)),
 ]
 ALT_SEED_OFFSETS = [1000, 2000, 3000]
 
@@ -70,12 +74,12 @@ def items(tier, seed):
     if tier == "quick":
         for fam, names in D.FAMILIES.items():
             jobs = [[n, 0, seeds[0], 10 * seed + 5] for n in names]
-            out.append(dict(name=f"cross/{fam}", kind="cross", jobs=jobs, nhash=2, w=20 + sum(cost.get(n, 2) for n in names)))
+            out.append(dict(name=f"cross/{fam}", kind="cross", jobs=jobs, nhash=3, w=30 + sum(cost.get(n, 2) for n in names)))
     else:
         for n in D.ROUTINES:
             for sid in D.SCRIPT_IDS:
                 jobs = [[n, sid, s, 10 * seed + 5 + sid] for s in seeds]
-                out.append(dict(name=f"cross/{n}/script{sid}", kind="cross", jobs=jobs, nhash=3, w=30 + 3 * len(seeds) * cost.get(n, 2)))
+                out.append(dict(name=f"cross/{n}/script{sid}", kind="cross", jobs=jobs, nhash=4, w=40 + 4 * len(seeds) * cost.get(n, 2)))
     for n in D.ROUTINES:
         for sid in D.SCRIPT_IDS:
             out.append(dict(name=f"inproc/{n}/script{sid}", kind="inproc", routine=n, sid=sid, seeds=seeds, net_seed=10 * seed + 5 + sid,
@@ -92,7 +96,7 @@ def _diff(a, b):
     return [k for k in ks if a["parts"].get(k) != b["parts"].get(k)]
 
 
-def _note_run(col, r, seen=None):
+def _note_run(col, r, _unused=None):
     """Outcome counters for one run (called exactly once per run)."""
     m = r["meta"]
     if m["error"]:
@@ -214,7 +218,9 @@ def attribute_cross(job):
     kinds, info = [], {}
     if _diff(base[k], again[k]):
         return [K_REPEAT], {K_REPEAT: _diff(base[k], again[k])}
-    h = run_sub([job], "12345", dict(CROSS[0][1], vclock=True))["results"]
+    h = run_sub([job], CROSS[1][0], dict(CROSS[0][1], vclock=True))["results"]
+    if not _diff(base[k], h[k]):
+        h = run_sub([job], CROSS[2][0], dict(CROSS[0][1], vclock=True))["results"]
     if _diff(base[k], h[k]):
         kinds.append(K_HASH)
         info[K_HASH] = _diff(base[k], h[k])
@@ -222,7 +228,7 @@ def attribute_cross(job):
     if _diff(base[k], g[k]):
         kinds.append(K_GLOB)
         info[K_GLOB] = _diff(base[k], g[k])
-    c = run_sub([job], "0", dict(glob=CROSS[0][1]["glob"], shift=1.0e6, vclock=True))["results"]
+    c = run_sub([job], "0", dict(glob=CROSS[0][1]["glob"], shift=SHIFT, vclock=True))["results"]
     if _diff(base[k], c[k]):
         kinds.append(K_CLOCK)
         info[K_CLOCK] = _diff(base[k], c[k])
@@ -236,9 +242,12 @@ def work_cross(item, col):
     runs = []
     for hs, pert in CROSS[: item["nhash"]]:
         runs.append((hs, pert, run_sub(jobs, hs, pert)))
-    probes = {r[2]["info"]["hash_probe"] for r in runs}
     col.outcome("interpreters_started", len(runs))
-    col.outcome("interpreter_sets_with_pairwise_different_string_hash", int(len(probes) == len(runs)))
+    o0 = runs[0][2]["info"]["probe_orders"]
+    for _hs, _p, out in runs[1:]:
+        o1 = out["info"]["probe_orders"]
+        col.outcome("probe_string_sets_compared_between_interpreters", len(o0))
+        col.outcome("probe_string_sets_iterated_in_a_different_order", sum(a != b for a, b in zip(o0, o1)))
     seen = set()
     base = runs[0][2]["results"]
     for job in jobs:
